@@ -431,12 +431,20 @@ func (c *compiler) compile(tok *token) []instruction {
 	case ":=", "var":
 		values := c.compile(tok.Tokens[1])
 		res = append(res, values...)
+		// the scope of the new variables begins after the declaration: the declared
+		// types are resolved before any of the names is in scope (var node *node = head)
+		types := map[*token]Type{}
+		for _, target := range tok.Tokens[0].Tokens {
+			if len(target.Tokens) > 0 {
+				types[target] = typeFromToken(c, target.Tokens[0])
+			}
+		}
 		if len(values) == 0 {
 			for _, target := range tok.Tokens[0].Tokens {
 				key := target.Text
 				code := codeGlobalZero
 				lookup := c.Globals
-				typ := typeFromToken(c, target.Tokens[0])
+				typ := types[target]
 				var idx int
 				if key == "_" {
 					continue
@@ -468,7 +476,7 @@ func (c *compiler) compile(tok *token) []instruction {
 				idx = lookup.Index(key)
 			}
 			if len(values) > 0 && len(target.Tokens) > 0 {
-				typ := typeFromToken(c, target.Tokens[0])
+				typ := types[target]
 				if slices.Contains([]Type{TypeUint8, TypeInt8, TypeUint32, TypeInt32, TypeFloat64}, typ) {
 					res = append(res, instruction{Code: codeCast, A: reg(typ)})
 				}
